@@ -108,7 +108,7 @@ CHECKS["C03"] = dict(
     engine="E6-hist",
     level="exploration",
     mode="asan",
-    harness=["harness/C03_rings.cpp"],
+    harness=["harness/C03_rings.cpp", "harness/C03_c_api.c"],
     igris=[],
     runs=dict(quick=60000, thorough=3000000),
     design_ref="DESIGN.md 4.6, 5 (C03)",
@@ -154,7 +154,7 @@ CHECKS["C01"] = dict(
     engine="E6-hist",
     level="exploration",
     mode="asan",
-    harness=["harness/C01_lists.cpp"],
+    harness=["harness/C01_lists.cpp", "harness/C01_c_api.c"],
     igris=["igris/container/dlist.cpp"],
     runs=dict(quick=60000, thorough=3000000),
     design_ref="DESIGN.md 4.6, 5 (C01)",
